@@ -101,3 +101,6 @@ def run(ctx: Ctx) -> None:
     stallpair_rule(ctx, "R07.stallpair")
     drain_rule(ctx, "R07.drain")
     flushres_rule(ctx, "R07.resolve")
+    from .c01 import riscv_map
+    from .c02 import split_rule
+    split_rule(ctx, riscv_map(ctx), "R07.split", interlock_only=True)
